@@ -40,8 +40,12 @@ package internal
 //@   ensures [C02,C11,C18] success-stores-results: implies(called && !upanic && uerr == nil, result == nil && outFromCall && ranFinal && events("TaskSuccess,TaskDone"))
 //@   ensures [C07,C08,C18] error-without-fallback-returned-unchanged: implies(called && !upanic && uerr != nil && !hasFallback, result == uerr && ranFinal && events("TaskError,TaskDone") && evarg("TaskError", 2) == uerr)
 //@   ensures [C11,C18] error-with-fallback-substitutes: implies(called && !upanic && uerr != nil && hasFallback, result == nil && outFromFallback && ranFinal && events("TaskErrorRecovered,TaskDone") && evarg("TaskErrorRecovered", 2) == uerr)
-//@   ensures [C04,C18] panic-without-fallback-is-panic-error: implies(upanic && !hasFallback, isPanicErr(result, pv) && ranFinal && events("TaskPanic,TaskDone") && evarg("TaskPanic", 2) == pv)
-//@   ensures [C11,C04,C18] panic-with-fallback-substitutes: implies(upanic && hasFallback, result == nil && outFromFallback && ranFinal && events("TaskPanicRecovered,TaskDone") && evarg("TaskPanicRecovered", 2) == pv)
+//@   ensures [C04,C18] panic-without-fallback-is-panic-error: implies(upanic && pv != nil && !hasFallback, isPanicErr(result, pv) && ranFinal && events("TaskPanic,TaskDone") && evarg("TaskPanic", 2) == pv)
+//@   ensures [C11,C04,C18] panic-with-fallback-substitutes: implies(upanic && pv != nil && hasFallback, result == nil && outFromFallback && ranFinal && events("TaskPanicRecovered,TaskDone") && evarg("TaskPanicRecovered", 2) == pv)
+//   (flow-task and modflow-task are also run with a nil panic value - a module
+//   whose go directive is < 1.21, where recover() returns nil for panic(nil):
+//   C04 speaks of non-nil values only; C20 wants the two modes to agree)
+//@   ensures [C20] a-nil-panic-value-passes-as-a-normal-return: implies(upanic && pv == nil, result == nil)
 
 //@ func role:flow-predicate
 //@   ensures [C04] no-escaping-panic: !panics
@@ -154,7 +158,8 @@ package internal
 //@   ensures [C20] task-called-once-with-provider-values: ncalls == 1 && argsOK
 //@   ensures [C20] success-stores-results: implies(called && !upanic && uerr == nil, result == nil && outFromCall)
 //@   ensures [C20] error-returned-unchanged: implies(called && !upanic && uerr != nil, result == uerr)
-//@   ensures [C20] panic-is-panic-error: implies(upanic, isPanicErr(result, pv))
+//@   ensures [C20] panic-is-panic-error: implies(upanic && pv != nil, isPanicErr(result, pv))
+//@   ensures [C20] a-nil-panic-value-passes-as-a-normal-return-as-in-base-mode: implies(upanic && pv == nil, result == nil)
 
 //@ func role:modflow-wrapper
 //@   ensures [C20] one-job-per-task-of-the-directive: jobsMatchDirective
